@@ -112,6 +112,10 @@ func (k Keeper) ToggleClient(
 		return sdkerrors.Wrapf(types.ErrInvalidClientType, "cannot toggle client %s, client-type can't be the same", chainName)
 	}
 
+	// the replaced client's consensus states and metadata are of another type: the new client cannot read them
+	// (its pruning would fail on them) and must not verify proofs against them
+	k.clearClientStore(ctx, chainName)
+
 	k.SetClientState(ctx, chainName, newClientState)
 	// the new client is of another type: it is the new client state that has to validate the consensus state
 	// and to write the metadata its type needs
@@ -138,6 +142,20 @@ func (k Keeper) ToggleClient(
 	}()
 
 	return nil
+}
+
+// clearClientStore deletes every entry (client state, consensus states, metadata) of a client store
+func (k Keeper) clearClientStore(ctx sdk.Context, chainName string) {
+	store := k.ClientStore(ctx, chainName)
+	iterator := store.Iterator(nil, nil)
+	var keys [][]byte
+	for ; iterator.Valid(); iterator.Next() {
+		keys = append(keys, append([]byte{}, iterator.Key()...))
+	}
+	iterator.Close()
+	for _, key := range keys {
+		store.Delete(key)
+	}
 }
 
 // UpdateClient updates the consensus state and the state root from a provided header.
